@@ -33,6 +33,18 @@ ENG_A = "simio"
 ENG_B = "simnet"
 
 CHECKS = {
+ "C01": dict(level="exploration", engine=ENG_A, design="DESIGN.md §4 C01/C02/C04",
+   technique="deterministic simulation, fault-free configuration: seed-drawn abstract data set -> real writer -> simulated sink (short writes, EINTR) -> simulated source (short reads, EINTR) -> real reader; independent PS3.5 encoder/parser as reference model",
+   text="Fault-free configuration of the data-set transfer whose faulty configurations decide C05/C34. Per run an abstract data set (all non-SQ VRs, empty/single/multi values, sequences to depth 4, private/unknown attributes, native or encapsulated pixel data) is built through the public API, written in Implicit LE / Explicit LE / Explicit BE / Deflated Explicit LE with either explicit-length strategy through a segmenting, interrupting sink, and read back through a segmenting source. Oracles: writing succeeds; the written bytes parse (independent parser) to the same tree as the independent canonical encoding; the real reader yields equal objects for written and canonical bytes; the object read back has the structure of the abstract data set (items, fragments, offset table).",
+   note="The verdict rests mostly on workload + independent oracle; the simulator contributes segmentation, interruption and byte accounting (said plainly: this is the fault-free baseline, not a schedule-dependent property). Object equality is structural (dicom-rs' own == is false for any undefined-length sequence). Items built through the API always have undefined length. Deflated runs without EINTR (flate2 does not retry it; see the C34 known finding). Floats are finite."),
+ "C02": dict(level="exploration", engine=ENG_A, design="DESIGN.md §4 C01/C02/C04",
+   technique="deterministic simulation, fault-free configuration: independent canonical stream -> simulated source -> real reader -> real writer (NoChange / default) -> simulated sink; bytes in == bytes out",
+   text="Canonical streams from the independent PS3.5 encoder (defined and undefined sequence/item lengths, encapsulated pixel data with empty/non-empty offset tables and zero-length fragments) are read by the real reader through a segmenting, interrupting source and rewritten by the real writer through a segmenting, interrupting sink; the bytes the sink accepted must equal the input exactly (NoChange always; default settings too when every container is undefined-length).",
+   note="Same remark as C01: fault-free baseline; trusted base is the independent encoder in sim/dcmref."),
+ "C04": dict(level="exploration", engine=ENG_A, design="DESIGN.md §4 C01/C02/C04",
+   technique="deterministic simulation, fault-free configuration: every byte a simulated sink accepted from the real writers is parsed by an independent PS3.5 parser; encoder byte counters compared with the sink's own count after every call",
+   text="Every stream the real data-set and file writers emit into the simulated sink (all writable syntaxes incl. deflated, both strategies, complete files with meta group) must parse with the independent PS3.5 parser: even exact lengths, containers end where declared, delimiters, VR-specific padding, fixed-width multiples, meta group length covering exactly group 0002. StatefulEncoder::bytes_written() must equal the number of bytes the sink accepted after every header/value/delimiter call under short writes and EINTR.",
+   note="Same remark as C01. The Python parser mentioned in the property text is replaced by the Rust one in sim/dcmref (no dicom-rs dependency)."),
  "C25": dict(level="fault_enumeration", engine=ENG_A, design="DESIGN.md §4 C25",
    technique="deterministic simulation with fault enumeration: generated PDU values; connection lost at every byte offset of the encoding (exhaustive <= 8 KiB, sampled above) through read_pdu and through read_pdu_from_wire over a simulated transport; independent PS3.8 parser as oracle",
    text="For each generated PDU (all variants, all user-information sub-items, up to 128 presentation contexts, sub-items up to 70 kB) the real write_pdu output is checked by an independent PS3.8 parser (every length field exact, content equal), read back by read_pdu with trailing bytes untouched, and the transport is cut after every byte offset (exhaustive for encodings <= 8 KiB): every strict prefix must read as incomplete / 'connection closed', never as an error or another PDU. Items that cannot be expressed in a 16-bit length must make write_pdu fail. Strict-mode maximum checked at the boundary.",
